@@ -54,7 +54,8 @@ def sym_args_for(fn, fixed: Optional[dict] = None) -> dict:
 
 
 def lit_axioms() -> list:
-    return LITS.axioms()
+    from vc.pyvc.builtins_sym import seq_axioms
+    return LITS.axioms() + seq_axioms()
 
 
 def fn_name(fn) -> str:
